@@ -135,6 +135,7 @@ func runC03(c *Ctx) {
 	r.Rule("O-4", "df once per document: df[term]++ exactly once per key of one document's term map")
 	r.Rule("O-5", "rebuild pairing: every index (re)build on a database that may carry a re-ranker is followed on all paths by the re-ranker rebuild; every replacement of Commands by both rebuilds")
 	r.Rule("O-6", "term cap: selectTopTerms is the identity when len(terms) <= cap; default cap 10; protected prefix >= 4")
+	r.Rule("O-7", "every term scored: between the head of the loop over the term list and the walk over a term's postings (through per-term step functions) a branch passes a term over only when the index has nothing for it, or on an idf threshold whose every stored value in the program is a constant the idf cannot be below")
 
 	pk := c.P.Pkg("internal/database")
 	if !r.Anchor("O-2", "package database", pk != nil) {
@@ -154,6 +155,7 @@ func runC03(c *Ctx) {
 	c03WhoWrites(c)
 	c03Rebuild(c)
 	c03TermCap(c, sx)
+	c03TermCoverage(c)
 }
 
 // tokenSource: L is a token list produced by normalizeAndTokenize (or an
